@@ -42,6 +42,14 @@ func rewriteSignatures(clusterID string, expectHash string,
 		return nil, err
 	}
 
+	// The line scanner below would silently drop a carriage
+	// return at the end of a line and supply a missing final
+	// newline, i.e., "repair" a manifest that does not really
+	// match the expected hash. Reject such manifests instead.
+	if strings.Contains(col.ManifestText, "\r") || (col.ManifestText != "" && !strings.HasSuffix(col.ManifestText, "\n")) {
+		return nil, fmt.Errorf("Invalid manifest: contains carriage return or lacks final newline")
+	}
+
 	// rewriting signatures will make manifest text 5-10% bigger so calculate
 	// capacity accordingly
 	updatedManifest := bytes.NewBuffer(make([]byte, 0, int(float64(len(col.ManifestText))*1.1)))
